@@ -10,12 +10,19 @@ def ev(*a):
 
 
 def c(x):
-    """condition: a constant or a truth-table row looked up at the current time step"""
+    """condition: a constant or a truth-table row looked up at the current time step (step 0 while the scene
+    is being sampled: SIM is None then)"""
     if x is True or x is False:
         return x
     row = TAB[x] if x < len(TAB) else []
-    k = SIM.currentTime
+    k = SIM.currentTime if SIM is not None else 0
     return bool(row[k]) if k < len(row) else False
+
+
+def q(sid, rid, atom, x):
+    """atomic proposition `atom` of temporal requirement `rid` stated by scenario `sid`"""
+    LOG.append(["Q", sid, rid, atom])
+    return c(x)
 
 
 def tw(sid, idx, x):
